@@ -100,6 +100,8 @@ class TBTRSink:
         self.calls = []
 
     def __call__(self, **kw):
+        if isinstance(kw.get("details"), dict):
+            kw["details"] = dict(kw["details"])  # (the dict may be the reporter's own, refilled later)
         self.calls.append(kw)
 
 
@@ -144,7 +146,12 @@ def build_stack(flavour, layers):
         elif layer == "decorator":
             obj = TestResultDecorator(obj)
         elif layer == "tagger":
-            obj = Tagger(obj, {"tg"}, set())
+            # (the two collections are the caller's: it goes on to use them for something else)
+            new_tags, gone_tags = {"tg"}, set()
+            obj = Tagger(obj, new_tags, gone_tags)
+            new_tags.clear()
+            new_tags.add("caller's-own")
+            gone_tags.add("tg")
             targets = [(f, t, tags + ("tg",)) for f, t, tags in targets]
         else:
             raise AssertionError(layer)
@@ -177,6 +184,7 @@ def run_history(stack, tests, with_run_ops):
     top, targets = build_stack(flavour, layers)
     problems = []
     reported = []
+    shared_details = {}
     try:
         if with_run_ops:
             top.startTestRun()
@@ -198,8 +206,11 @@ def run_history(stack, tests, with_run_ops):
             elif form == "emptyreason":
                 top.addSkip(t, "")  # what @unittest.skip("") and skipTest("") produce
             else:
-                details = make_details(form, marker)
-                getattr(top, outcome)(t, details=details)
+                # (one dict object, emptied and refilled by the reporter for each of its outcomes)
+                shared_details.clear()
+                shared_details.update(make_details(form, marker))
+                getattr(top, outcome)(t, details=shared_details)
+                details = dict(shared_details)
             top.stopTest(t)
             reported.append((t, outcome, form, marker, details, n))
         if with_run_ops:
@@ -251,6 +262,29 @@ def run_history(stack, tests, with_run_ops):
             problems.append(("tbtr", "second run: %d callbacks after %d + 1 tests" % (len(sink.calls), len(reported))))
         elif not (before <= call["start_time"] <= call["stop_time"] <= after):
             problems.append(("tbtr-times", "second run without time(): callback times %r..%r, the test ran between %r and %r" % (call["start_time"], call["stop_time"], before, after)))
+        if not problems:
+            # a third run: a time is supplied for its first test and withdrawn again (time(None))
+            # before its second, which is then timed by the clock
+            try:
+                top.startTestRun()
+                top.time(ts(50))
+                ta = make_test("placeholder", 100)
+                top.startTest(ta)
+                top.addSuccess(ta)
+                top.stopTest(ta)
+                top.time(None)
+                tb = make_test("placeholder", 101)
+                top.startTest(tb)
+                top.addSuccess(tb)
+                top.stopTest(tb)
+                top.stopTestRun()
+            except Exception as e:
+                problems.append(("call-raised", "third run: %s: %s" % (type(e).__name__, str(e)[:120])))
+                return problems
+            after = datetime.datetime.now(utc)
+            ca, cb = sink.calls[-2], sink.calls[-1]
+            if (ca["start_time"], ca["stop_time"]) != (ts(50), ts(50)) or not (before <= cb["start_time"] <= cb["stop_time"] <= after):
+                problems.append(("tbtr-times", "third run, time(t) then time(None): callback times %r..%r and %r..%r" % (ca["start_time"], ca["stop_time"], cb["start_time"], cb["stop_time"])))
     return problems
 
 
